@@ -263,6 +263,10 @@ def check(prog, res, tier):
         if p.outcome != 'return':
             return [definite('constructor raises')] if p.outcome == 'raise' else []
         rv = p.value.fields.get('random_value')
+        if rv is None:
+            # not an attribute the constructor sets (a property, a lazily drawn value ...): where the fill comes from is not
+            # what this rule follows
+            return [soft('the constructor does not store the random fill as random_value: how the fill is drawn was not followed')]
         if not isinstance(rv, IntV):
             return [definite(f'random fill is {rv!r}')]
         if 'def-time' in rv.tags:
